@@ -114,6 +114,9 @@ impl Ap {
 		if !(lo.is_finite() && hi.is_finite()) {
 			return Ap::undefined();
 		}
+		if lo == hi {
+			return Ap::exact(lo);
+		}
 		Ap { v: 0.5 * (lo + hi), e: 0.5 * (hi - lo) + EPS * lo.abs().max(hi.abs()) }
 	}
 	pub fn hull(self, o: Ap) -> Ap {
